@@ -66,6 +66,8 @@ CInit(sc) ==
       junk   |-> [c \in 1..NC(sc) |-> FALSE],
       fbad   |-> [c \in 1..NC(sc) |-> FALSE],
       local  |-> [c \in 1..NC(sc) |-> ""],
+      pend   |-> [c \in 1..NC(sc) |-> {}],        \* slots skipped by a later frame whose handler had
+                                                \* finished: lost, or merely late? (decided later)
       lastSend |-> 0,                           \* instant of the latest client write
       slots  |-> [c \in 1..NC(sc) |-> SlotsFrom(sc, c - 1, 0)] ]   \* computed once per scenario    \* the client's own socket address (C02)   \* a frame-order violation was already reported
                                                    \* on c: later frame guards would be echoes
@@ -217,17 +219,20 @@ CFrame(s, sc, e) ==
                       \o V(s.icnt[c + 1][mm + 1] = 0, "C18", "InterimTwice")
                       \o V(e.st = 100 /\ e.wf, "C18", "InterimMalformed") ]
     ELSE
-      IF i > Len(sl)
+      IF i > Len(sl) /\ s.pend[c + 1] = {}
       THEN [ s |-> [s EXCEPT !.fcount[c + 1] = i, !.fbad[c + 1] = TRUE],
              v |-> V(FALSE, (IF Fam(sc) \in {"C10", "C16", "C12", "C09"} THEN Fam(sc) ELSE "C06"), "ExtraFrame") ]
       ELSE
         LET \* slot the frame really belongs to: by its X-Id marker, or (library-generated frames
             \* carry none) the first slot from i on that expects an unmarked frame of this status
             IsMarked(k) == M(sc, c, sl[k]).cls = "ok" /\ M(sc, c, sl[k]).how \in {"respond", "writer", "upgrade"}
+            latepend == {k \in s.pend[c + 1] : (~IsMarked(k)) /\ ExpStatus(M(sc, c, sl[k])) = e.st}
             cand == IF e.oc >= 0
                     THEN {k \in 1..Len(sl) : e.oc = c /\ sl[k] = e.om /\ IsMarked(k)}
+                    ELSE IF latepend # {} THEN latepend
+                    ELSE IF i > Len(sl) THEN {}
                     ELSE IF ~IsMarked(i) THEN {i}
-                    ELSE {k \in (i + 1)..Len(sl) : (~IsMarked(k)) /\ ExpStatus(M(sc, c, sl[k])) = e.st /\ ~SlotDone(s, sc, c, sl[i])}
+                    ELSE {k \in (i + 1)..Len(sl) : (~IsMarked(k)) /\ ExpStatus(M(sc, c, sl[k])) = e.st}
             j == IF cand = {} THEN 0 ELSE MinOf(cand)
             ordp == IF Fam(sc) = "C10" THEN "C10" ELSE "C01"
             wfp == IF Fam(sc) \in {"C01", "C06"} THEN "C01" ELSE IF Fam(sc) \in {"C13", "C15"} THEN Fam(sc) ELSE "C04"
@@ -239,27 +244,32 @@ CFrame(s, sc, e) ==
              \* the application's own response was expected
              [ s |-> [s EXCEPT !.fcount[c + 1] = i, !.fbad[c + 1] = TRUE],
                v |-> IF e.oc >= 0 THEN V(FALSE, ordp, "FrameOutOfOrder")
+                     ELSE IF i > Len(sl) THEN V(FALSE, Own(sc, "C06"), "ExtraFrame")
                      ELSE V(FALSE, (IF M(sc, c, sl[i]).cls = "ok" THEN Own(sc, "C06") ELSE M(sc, c, sl[i]).why), "FrameStatus") ]
+        ELSE IF j < i /\ j \in s.pend[c + 1]
+        THEN \* the response of a slot that a later frame had skipped arrives after all: not lost, but late
+             [ s |-> [s EXCEPT !.pend[c + 1] = @ \ {j}], v |-> V(FALSE, ordp, "FrameOutOfOrder") ]
         ELSE IF j < i
-        THEN [ s |-> [s EXCEPT !.fcount[c + 1] = i, !.fbad[c + 1] = TRUE], v |-> V(FALSE, ordp, "FrameOutOfOrder") ]
+        THEN \* a second final response for a slot that already has one
+             [ s |-> [s EXCEPT !.fbad[c + 1] = TRUE], v |-> V(FALSE, Own(sc, "C06"), "ExtraFrame") ]
         ELSE
         LET mm == sl[j]  x == M(sc, c, mm)
             isok == x.cls = "ok"
             rejp == IF isok THEN Own(sc, "C06") ELSE x.why
             explen == IF isok /\ x.how \in {"respond", "writer"} /\ ~x.nobody THEN x.rlen ELSE -1
-            \* slots i..j-1 were skipped: a finished one lost its response (C06), an unfinished one
-            \* was overtaken (C01)
+            \* slots i..j-1 were skipped.  An unfinished one was overtaken (C01, certain).  A finished one
+            \* either lost its response (C06) or its response is merely late (C01): that is decided when
+            \* its frame arrives after all, or at the next Quiescent / end of stream (`pend`).
             skipped == i..(j - 1)
             lost == {k \in skipped : SlotDone(s, sc, c, sl[k])}
             overtaken == skipped \ lost
-            lostp == IF \E k \in lost : M(sc, c, sl[k]).cls # "ok" THEN M(sc, c, sl[CHOOSE k \in lost : M(sc, c, sl[k]).cls # "ok"]).why ELSE Own(sc, "C06")
         IN
         [ s |-> [s EXCEPT !.fcount[c + 1] = j,
+                          !.pend[c + 1] = @ \cup lost,
                           \* a body that is not the owner's is the trace of foreign bytes: what the
                           \* client parses after it on this connection proves nothing any more
                           !.fbad[c + 1] = (~e.bm) \/ (explen >= 0 /\ e.blen # explen) \/ overtaken # {}],
           v |-> V(overtaken = {}, ordp, "FrameOutOfOrder")
-                \o V(lost = {}, lostp, "ResponseMissing")
                 \o V(e.st = ExpStatus(x), rejp, "FrameStatus")
                 \o V(isok => s.ans[c + 1][mm + 1] # "none", "C06", "FrameBeforeAnswer")
                 \o V(isok => mm \in s.deliv[c + 1], "C06", "FrameForUndelivered")
@@ -267,6 +277,12 @@ CFrame(s, sc, e) ==
                 \o V(explen >= 0 => e.blen = explen, wfp, "FrameBodyLength")
                 \o V((isok /\ x.nobody) => e.wire = 0, "C04", "BodyOctetsOnNoBodyResponse")
                 \o V((isok /\ x.exp /\ s.asked[c + 1][mm + 1] >= 1) => s.icnt[c + 1][mm + 1] = 1, "C18", "InterimMissing") ]
+
+\* slots still pending when nothing more can arrive: their responses are lost
+LostNow(s, sc, c) ==
+    LET sl == Slots(s, c)  P == s.pend[c + 1] IN
+    IF P = {} \/ s.fbad[c + 1] THEN <<>>      \* (after foreign bytes nothing can be concluded)
+    ELSE V(FALSE, (IF \E k \in P : M(sc, c, sl[k]).cls # "ok" THEN M(sc, c, sl[CHOOSE k \in P : M(sc, c, sl[k]).cls # "ok"]).why ELSE Own(sc, "C06")), "ResponseMissing")
 
 \* which property owns an unexpected end of stream
 EofOwner(s, sc, c) ==
@@ -280,9 +296,10 @@ CEof(s, sc, e) ==
         \* every delivered request already has its frame
         pending == {mm \in s.deliv[c + 1] : \E i \in 1..Len(sl) : sl[i] = mm /\ i > s.fcount[c + 1]}
     IN
-    [ s |-> [s EXCEPT !.ceof[c + 1] = TRUE],
-      v |-> IF gone \/ s.fbad[c + 1] THEN <<>>
-            ELSE V(Stopped(s, sc, c) \/ s.fault[c + 1] = "half", EofOwner(s, sc, c), "ClosedWhileUsable")
+    [ s |-> [s EXCEPT !.ceof[c + 1] = TRUE, !.pend[c + 1] = {}],
+      v |-> IF gone \/ s.fbad[c + 1] THEN LostNow(s, sc, c)
+            ELSE LostNow(s, sc, c)
+                 \o V(Stopped(s, sc, c) \/ s.fault[c + 1] = "half", EofOwner(s, sc, c), "ClosedWhileUsable")
                  \o V(pending = {}, EofOwner(s, sc, c), "ClosedBeforeAnswering") ]
 
 CJunk(s, sc, e) ==
@@ -312,8 +329,10 @@ Quiescent(s, sc, e, rb, dropped) ==
     IN
     IF e.res \notin {"idle", "settled"} THEN [s |-> s, v |-> V(FALSE, Fam(sc), "ExecutionDidNotSettle")]
     ELSE
-    [ s |-> s,
-      v |-> (IF rb /\ ph <= 1
+    [ s |-> [s EXCEPT !.pend = [c \in 1..NC(sc) |-> {}]],
+      v |-> (IF \E c \in 0..(NC(sc) - 1) : s.pend[c + 1] # {}
+             THEN LostNow(s, sc, CHOOSE c \in 0..(NC(sc) - 1) : s.pend[c + 1] # {}) ELSE <<>>)
+            \o (IF rb /\ ph <= 1
              THEN V(\A c \in conns : undeliv(c) = {}, stallp(0, 0), "RequestNotDelivered")
              ELSE <<>>)
             \o V(\A c \in conns : s.fbad[c + 1] \/ s.fcount[c + 1] >= owed(c), frp(0), "ResponseNotReceived")
